@@ -79,7 +79,9 @@ def doAccess (mode world spine checker impl : String) : String :=
         if V.checkAuth p.W fuel p.d p.inv sp then "ok"
         else "fail:the authorization returned by the implementation is not a complete valid chain for this world"
       else if ic == "fail" then
-        if model == "ok" && (mode == "C06" || mode == "C04" || mode == "ALL") then
+        if model == "ok" && mode == "C03" then
+          s!"fail:every token of a complete valid chain ({mspine}) is inside its validity window at the validation second but the implementation refused"
+        else if model == "ok" && (mode == "C06" || mode == "C04" || mode == "ALL") then
           s!"fail:a complete valid chain exists and nothing on it is revoked ({mspine}) but the implementation refused"
         else if badName then "fail:refusal is not an Unauthorized error"
         else "ok"
